@@ -87,8 +87,23 @@ func c01RR(r *fw.R, ar *wire.RR, tn string, canonical bool) {
 			r.Fail("msg-pack-layout/"+tn, "Msg.Pack body %x differs from the reference %x", mb[12:], want)
 		}
 	}
+	// (1c) the same record converted to its RFC 3597 form carries the same RDATA
+	if _, isUnknown := rr.(*dns.RFC3597); perr == nil && !isUnknown && ar.Type != 41 && !ar.NoRdata {
+		g := new(dns.RFC3597)
+		if err := g.ToRFC3597(rr); err != nil {
+			r.Fail("ToRFC3597/"+tn, "ToRFC3597(%s): %v", rrDesc(ar), err)
+		} else if rd, _ := hex.DecodeString(g.Rdata); !bytes.Equal(rd, ar.Rdata()) {
+			r.Fail("ToRFC3597/"+tn, "ToRFC3597(%s).Rdata = %s; reference rdata %x", rrDesc(ar), g.Rdata, ar.Rdata())
+		}
+	}
 	// (2) unpack(reference octets) == original
-	rr2, off2, uerr := dns.UnpackRR(want, 0)
+	// (from a buffer of the caller's that is overwritten right after the call: the record may not keep
+	// looking at it)
+	scratch := append(make([]byte, 0, len(want)), want...)
+	rr2, off2, uerr := dns.UnpackRR(scratch, 0)
+	for i := range scratch {
+		scratch[i] = ^scratch[i]
+	}
 	if uerr != nil || off2 != len(want) {
 		r.Fail("unpack-error/"+tn, "UnpackRR(%x) = off %d, err %v; record %s", want, off2, uerr, rrDesc(ar))
 		return
